@@ -574,7 +574,7 @@ impl Rig {
                 if st["wait"].as_bool().unwrap_or(false) {
                     // wait until the proxy's accept path has looked this source port up
                     let t0 = std::time::Instant::now();
-                    while verif::audit::lookups(port) == lookups_before && t0.elapsed() < Duration::from_secs(3) {
+                    while verif::audit::lookups(port) == lookups_before && t0.elapsed() < Duration::from_millis(st["wait_ms"].as_u64().unwrap_or(300)) {
                         std::thread::sleep(Duration::from_micros(200));
                     }
                     if verif::audit::lookups(port) == lookups_before {
